@@ -323,14 +323,18 @@ def resource_dict_transformer(world_handle: WorldFromFileHandle, world: World,
     Root map is resolved through the :attr:`Handle.parent` attribute
     of the given world handle.
     """
-    root_map = world_handle
-    while root_map.parent is not None:
-        root_map = root_map.parent
+    def get_root_map():
+        root_map = world_handle
+        while root_map.parent is not None:
+            root_map = root_map.parent
 
-    if not isinstance(root_map, ResourceMap):
-        raise TypeError('World Handle not connected to a ResourceMap. '
-                        'Unable to retrieve resources through the '
-                        r'$res{} format.')
+        # Only needed (hence checked) when a reference is met
+        if not isinstance(root_map, ResourceMap):
+            raise TypeError('World Handle not connected to a ResourceMap. '
+                            'Unable to retrieve resources through the '
+                            r'$res{} format.')
+
+        return root_map
 
     def map_function(arg):
         if not isinstance(arg, str):        # Skip non-strings
@@ -338,11 +342,13 @@ def resource_dict_transformer(world_handle: WorldFromFileHandle, world: World,
 
         match = RESOURCE_STRING_REGEX.match(arg)
         if match is not None:
+            root_map = get_root_map()
             res_string = root_map.split_char.join(match.groups()[0].split('.'))
             return root_map[res_string]
 
         match = HANDLE_STRING_REGEX.match(arg)
         if match is not None:
+            root_map = get_root_map()
             res_string = root_map.split_char.join(match.groups()[0].split('.'))
             return root_map.get(res_string)
 
